@@ -28,9 +28,10 @@ func init() {
 			"(status) the pending sync status is copied into a crumb only when that crumb drains pendingUpdates (so in-sync is never announced before the updates that preceded it).  " +
 			"Connection (syncserver): (stream) the breadcrumb handed to the delta sender is the one whose snapshot was just sent (returned by SendSnapshot, or passed to the snapshot streamer on every path); " +
 			"the delta sender's breadcrumb advances only through breadcrumb.Next(); between two Next() calls the crumb's Deltas are read, and every Deltas read flows into the MsgKVs that is sent; " +
+			"a binary snapshot is bound to one crumb: SendSnapshot returns the crumb field of the snapshot object it sent, that field is set only at construction, and the function that fills the snapshot's buffer streams the KVs of that same object's crumb field; " +
 			"after a Next() the status message is sent only after the MsgKVs (or with no deltas to send); MsgSyncStatus is constructed only by the delta sender.",
 		NotDecided: "Convergence itself; the client side (sync_client.go applies messages in order); gob encoding/decoding and WouldBeNoOp's definition of 'unchanged'; per-key ordering inside one batch " +
-			"(deltas are appended in arrival order, the slice order is not analysed); the binary snapshot cache's own consistency between the crumb it returns and the bytes it sends.",
+			"(deltas are appended in arrival order, the slice order is not analysed); that the binary snapshot's buffer is complete before/while it is read (multireadbuf) and that the cached snapshot object handed to a connection is the one that was populated.",
 		Assumptions: []string{
 			"go/types + go/ssa (x/tools v0.50.0) model of the current source, CGO_ENABLED=0 build, non-test files",
 			"google/btree Clone() is a copy-on-write snapshot; Get/Len/Ascend/Clone do not mutate",
@@ -58,6 +59,10 @@ func init() {
 				Old: "go h.sendDeltaUpdatesToClient(h.logCxt.WithField(\"thread\", \"kv-sender\"), breadcrumb)", New: "go h.sendDeltaUpdatesToClient(h.logCxt.WithField(\"thread\", \"kv-sender\"), h.cache.CurrentBreadcrumb())", Expect: "C24.stream/handoff"},
 			{Name: "binary snapshot sender returns the newest crumb instead of the one it serialised", File: "typha/pkg/syncserver/snap_precalc.go",
 				Old: "\treturn snap.crumb, nil\n", New: "\treturn s.cache.CurrentBreadcrumb(), nil\n", Expect: "C24.stream/binsnap"},
+			{Name: "binary snapshot bytes taken from whatever crumb is newest when the background serialiser runs", File: "typha/pkg/syncserver/snap_precalc.go",
+				Old: "\t\tsnap.crumb,\n\t\twriteMsg,\n", New: "\t\ts.cache.CurrentBreadcrumb(),\n\t\twriteMsg,\n", Expect: "C24.stream/binsnap/SnappySnapshotCache.writeDataToSnapshot/bytes-from-own-crumb"},
+			{Name: "binary snapshot bytes taken from the crumb of whichever snapshot is active now", File: "typha/pkg/syncserver/snap_precalc.go",
+				Old: "\t\tsnap.crumb,\n\t\twriteMsg,\n", New: "\t\ts.activeSnapshot.crumb,\n\t\twriteMsg,\n", Expect: "C24.stream/binsnap/SnappySnapshotCache.writeDataToSnapshot/bytes-from-own-crumb"},
 			{Name: "delta sender skips ahead to the newest crumb", File: c24SrvFile,
 				Old: "breadcrumb, err = breadcrumb.Next(h.cxt)", New: "breadcrumb, err = h.cache.CurrentBreadcrumb().Next(h.cxt)", Expect: "C24.stream/advance-by-next"},
 			{Name: "deltas of crumbs passed while batching are dropped", File: c24SrvFile,
@@ -105,7 +110,7 @@ func runC24(c *Ctx) {
 
 	c.Rule("C24.publish", "E-ORDER/E-FLOW/E-PAIR", "Breadcrumb safe publication: no write after the atomic link, KVs is a Clone taken after the batch's mutations, deltas mirror tree mutations, linked crumb == current crumb", 9)
 	c.Rule("C24.status", "E-GUARD", "pendingStatus is copied into a crumb only when the crumb drains pendingUpdates", 1)
-	c.Rule("C24.stream", "E-ORDER/E-FLOW/E-OWN", "delta sender starts at the crumb whose snapshot was sent, advances only via Next, never skips or drops Deltas, sends status after the deltas; single status sender; binary snapshot bound to one crumb", 8)
+	c.Rule("C24.stream", "E-ORDER/E-FLOW/E-OWN", "delta sender starts at the crumb whose snapshot was sent, advances only via Next, never skips or drops Deltas, sends status after the deltas; single status sender; binary snapshot bound to one crumb (returned crumb == serialised crumb)", 9)
 
 	m.publishRules()
 	m.statusRule()
@@ -631,6 +636,77 @@ func (m *c24Model) streamRules() {
 	c.Check(reassigned == "", "C24.stream/binsnap/crumb-fixed", p.Pos(snapCrumb.Pos()),
 		fmt.Sprintf("snapshot.crumb is only set when the snapshot object is constructed (%d site(s))", nCrumbStores),
 		"snapshot.crumb is reassigned at "+reassigned+" after construction: cached bytes and returned crumb can diverge")
+
+	// (1c) the bytes of a binary snapshot are serialised from the crumb recorded in the same snapshot object:
+	//      wherever a function that works on a *snapshot (touches its fields) hands a breadcrumb to a function
+	//      that streams the crumb's KVs, that breadcrumb is the crumb field of that very snapshot object.
+	snapBuf, _ := p.LookupObj(c24Srv, "snapshot.buf").(*types.Var)
+	if snapBuf == nil {
+		c.Lost("syncserver.snapshot.buf")
+	}
+	nSer := 0
+	for _, f := range fns {
+		var fills []ssa.Value // snapshot objects whose buffer f (or its closures) touches
+		var calls []*ssa.Call
+		for _, g := range withClosures([]*ssa.Function{f}) {
+			allInstrs(g, false, func(_ *ssa.Function, in ssa.Instruction) {
+				switch x := in.(type) {
+				case *ssa.FieldAddr:
+					if structField(derefType(x.X.Type()), x.Field) == snapBuf {
+						fills = append(fills, x.X)
+					}
+				case *ssa.Call:
+					if streams(calleeFn(x.Common())) {
+						for _, a := range x.Call.Args {
+							if m.isCrumbPtr(a.Type()) {
+								calls = append(calls, x)
+								break
+							}
+						}
+					}
+				}
+			})
+		}
+		if len(fills) == 0 || len(calls) == 0 {
+			continue // not a snapshot serialiser (the legacy streamer is covered by C24.stream/handoff)
+		}
+		for _, ci := range calls {
+			nSer++
+			key := "C24.stream/binsnap/" + fnName(f) + "/bytes-from-own-crumb"
+			var crumbArg ssa.Value
+			for _, a := range ci.Call.Args {
+				if m.isCrumbPtr(a.Type()) {
+					crumbArg = a
+				}
+			}
+			bad := ""
+			ld, isLoad := crumbArg.(*ssa.UnOp)
+			var fa *ssa.FieldAddr
+			if isLoad && ld.Op == token.MUL {
+				fa, _ = ld.X.(*ssa.FieldAddr)
+			}
+			switch {
+			case fa == nil || structField(derefType(fa.X.Type()), fa.Field) != snapCrumb:
+				if _, isParam := crumbArg.(*ssa.Parameter); isParam {
+					c.Undecided(key, p.Pos(ci.Pos()), "the breadcrumb serialised into the snapshot buffer is a parameter of %s; its relation to snapshot.crumb is not modelled", fnName(f))
+					continue
+				}
+				bad = "serialises " + path(crumbArg) + " into the snapshot's buffer, not the crumb recorded in the snapshot object"
+			default:
+				for _, o := range fills {
+					if !c23Same(o, fa.X) {
+						bad = "serialises the crumb of " + path(fa.X) + " into the buffer of a different snapshot object (" + path(o) + ")"
+					}
+				}
+			}
+			c.Check(bad == "", key, p.Pos(ci.Pos()),
+				"the KVs written into a snapshot's buffer are those of the crumb stored in the same snapshot object (the one SendSnapshot returns)",
+				fnName(f)+" "+bad+": the cached bytes and the crumb handed to the delta sender can differ, so deltas are replayed (older value after newer) or skipped")
+		}
+	}
+	if nSer == 0 {
+		c.Lost("no function of syncserver serialises a breadcrumb into snapshot.buf")
+	}
 
 	// the breadcrumb variable of the delta sender (captured → a cell)
 	var cell *ssa.Alloc
